@@ -25,9 +25,9 @@ type NameOpts struct {
 
 var plainComps = []string{"a", "b", "c", "d", "x", "y", "f", "lib", "test", "src", "main.go", "README", "a1", "z9", "ab", "ad", "da", "d0", "Makefile", "util.c", "x_y", "v1.2"}
 var spaceComps = []string{"my file.txt", "a b", "d d", "y z", "new folder", "x  y", "a b c"}
-var parenComps = []string{"a\\b", "back\\slash.txt", "100%", "%s.txt", "Readme", "readme", "SRC", strings.Repeat("n", 120), strings.Repeat("w", 244), strings.Repeat("w", 250), strings.Repeat("w", 255), "a(b", "d(1)", "f(2).txt", "a+b", "c++", "x+y.z", "(x)", "lib-old", "d-old", "d.c", "test.c", "test-data", "lib.go", "a.b", "aXb", "d-a", "d-b"}
+var parenComps = []string{"..notes", "...", "..cache", "HEAD", "index", "config", "refs", "objects", "logs", "a\\b", "back\\slash.txt", "100%", "%s.txt", "Readme", "readme", "SRC", strings.Repeat("n", 120), strings.Repeat("w", 244), strings.Repeat("w", 250), strings.Repeat("w", 255), "a(b", "d(1)", "f(2).txt", "a+b", "c++", "x+y.z", "(x)", "lib-old", "d-old", "d.c", "test.c", "test-data", "lib.go", "a.b", "aXb", "d-a", "d-b"}
 var metaComps = []string{"[x]", "a*b", "q?", "p|q", "^s", "e$", "{k}", "a{2}", "x[0]", "a.*", "(?i)a", "a)b", "d+"}
-var nonASCII = []string{"é", "日本", "ß", "café", "naïve.txt", "файл", "語"}
+var nonASCII = []string{"é", "日本", "ß", "café", "naïve.txt", "файл", "語", "caf\xe9.txt", "caf\xe8.txt", "\xff\xfe", "na\xefve", "\u00e9\xe9"}
 
 func pick[T any](r *rand.Rand, xs []T) T { return xs[r.IntN(len(xs))] }
 
@@ -67,6 +67,10 @@ func family(r *rand.Rand, o NameOpts) []string {
 	}
 	// echoes: the directory's own name again beneath it, as a whole component and as the beginning of one
 	inner = append(inner, D, D+"x.c", "sub/sub", "sub/subway.c", "sub/x/sub", D+"/"+D)
+	if r.IntN(4) == 0 {
+		// paths that are also the names of Goit's own files
+		return []string{"HEAD", "index", "refs/heads/main", "logs/HEAD", "config", D + "/HEAD"}
+	}
 	var out []string
 	nIn := 1 + r.IntN(3)
 	for i := 0; i < nIn; i++ {
@@ -166,6 +170,18 @@ var headerLookalikes = [][]byte{
 	[]byte("0"), []byte("blob"), []byte("blob \x00"), []byte("100644 a\x00"), []byte("DIRC"),
 }
 
+var magicHeads = [][]byte{{0xef, 0xbb, 0xbf}, {0xff, 0xfe}, {0xfe, 0xff}, []byte("#!/bin/sh\n"), {0x1f, 0x8b, 0x08}, []byte("PK\x03\x04"), []byte("\x7fELF"), []byte("\x89PNG\r\n\x1a\n"), {0}, []byte("%PDF-1.7\n"), []byte("DIRC"), []byte("ref: refs/heads/main"), {0xff, 0xfe, 0, 0}, {0x78, 0x9c}, []byte("\n"), []byte(" \t")}
+var magicTails = [][]byte{{}, []byte("name = v\n"), {0, 1, 0xff, 0xfe, ' ', 'b', 'i', 'n'}, []byte("text\r"), []byte("text\r\n"), []byte("text\n\n\n"), []byte("text \t ")}
+
+// MagicContent is the i-th content that starts (or ends) with bytes something might take for a mark rather than
+// content: byte order marks, a shebang, archive and image magic numbers, a leading NUL, leading/trailing white space,
+// a trailing CR.
+func MagicContent(i int) []byte {
+	m := magicHeads[i%len(magicHeads)]
+	t := magicTails[(i/len(magicHeads))%len(magicTails)]
+	return append(append([]byte{}, m...), t...)
+}
+
 // Content returns (bytes, class).
 func Content(r *rand.Rand, maxSize int) ([]byte, string) {
 	switch r.IntN(12) {
@@ -199,6 +215,11 @@ func Content(r *rand.Rand, maxSize int) ([]byte, string) {
 		fillRandom(r, b)
 		return b, "random"
 	case 8:
+		if r.IntN(2) == 0 {
+			// bytes that something might take for a mark rather than content: byte order marks, a shebang, archive and image
+			// magic numbers, a leading NUL, a trailing CR, no final newline
+			return MagicContent(r.IntN(1 << 20)), "magic-prefix"
+		}
 		return []byte("hello\n"), "text"
 	case 9:
 		return []byte(fmt.Sprintf("v%d\nsecond line\n\nlast without newline", r.IntN(1000))), "text-multiline"
@@ -266,6 +287,8 @@ func Message(r *rand.Rand, counter int) (string, string) {
 			return u + " " + strings.Repeat("w", 70000), "line-70000"
 		case 1:
 			return u + " " + strings.Repeat("\u00e9\u65e5", 15000), "line-75000-multibyte"
+		case 2:
+			return u + " " + strings.Repeat("v", 130990-len(u)), "line-131000"
 		}
 		return u + " " + strings.Repeat("x", 4096-len(u)-1), "line-4096"
 	case 18:
@@ -347,6 +370,28 @@ func tzif(offSec int32) []byte {
 	b.WriteByte(0) // isdst
 	b.WriteByte(0) // abbrind
 	b.WriteString("VRF\x00")
+	return b.Bytes()
+}
+
+// TZifTransition: a zone that is at offBefore seconds east of UTC until the instant at and at offAfter from then on
+// (the end, or the start, of daylight saving time: wall-clock times around it are repeated or skipped).
+func TZifTransition(offBefore, offAfter int32, at int32) []byte {
+	var b bytes.Buffer
+	b.WriteString("TZif")
+	b.WriteByte(0)
+	b.Write(make([]byte, 15))
+	for _, v := range []uint32{0, 0, 0, 1, 2, 8} { // isutc, isstd, leap, time, type, char
+		binary.Write(&b, binary.BigEndian, v)
+	}
+	binary.Write(&b, binary.BigEndian, at)
+	b.WriteByte(1) // the transition switches to type 1; type 0 is what holds before it
+	binary.Write(&b, binary.BigEndian, offBefore)
+	b.WriteByte(1)
+	b.WriteByte(0)
+	binary.Write(&b, binary.BigEndian, offAfter)
+	b.WriteByte(0)
+	b.WriteByte(4)
+	b.WriteString("VDT\x00VST\x00")
 	return b.Bytes()
 }
 
